@@ -1,10 +1,14 @@
 #!/bin/bash
-# tools/seedtest.sh <patchdir> <Cxx> [tier] : apply a seeded patch to /repo, run a check, revert.
+# tools/seedtest.sh <patchdir> <Cxx> [tier] : run a check against a SCRATCH worktree of /repo with a seeded patch applied.
+# /repo itself is never touched; evidence and replay files of the run go to a scratch directory.
 set -u
-P="$1/patch.diff"
-cd /repo && git diff --quiet || { echo "repo dirty"; exit 3; }
-git apply "$P" 2>/dev/null || patch -p1 -F3 -s < "$P" || { echo "PATCH DOES NOT APPLY"; git reset -q --hard HEAD; find . -name '*.rej' -o -name '*.orig' | xargs rm -f; exit 3; }
-git -C /repo diff --stat | tail -1
-cd /verif && ./bin/check "$2" --tier "${3:-quick}" 2>&1 | grep -v -e WARNING -e UserWarning -e warnings.warn | tail -${TAILN:-4}
+P="$(cd "$1" && pwd)/patch.diff"
+WT=$(mktemp -d /tmp/seedwt-XXXXXX); rmdir $WT
+git -C /repo worktree add -q --detach $WT HEAD || exit 3
+cleanup() { git -C /repo worktree remove --force $WT 2>/dev/null; rm -rf $WT.out; }
+trap cleanup EXIT
+(cd $WT && (git apply "$P" 2>/dev/null || patch -p1 -F3 -s < "$P")) || { echo "PATCH DOES NOT APPLY"; exit 3; }
+git -C $WT diff --stat | tail -1
+mkdir -p $WT.out
+cd /verif && VERIF_REPO=$WT VERIF_EVIDENCE_DIR=$WT.out/evidence VERIF_REPLAY_DIR=$WT.out/replay ./bin/check "$2" --tier "${3:-quick}" 2>&1 | grep -v -e WARNING -e UserWarning -e warnings.warn | sed "s#$WT.out#<scratch>#g" | tail -${TAILN:-4}
 echo "exit=${PIPESTATUS[0]}"
-cd /repo && git checkout -- . && git clean -fdq src mechanisms test 2>/dev/null; git status --short | grep -v egg-info
